@@ -198,9 +198,9 @@ def _trial_sweep_from_proto(
         records: dict[str, np.ndarray] = {}
         for mr in pr.measurement_results:
             instances = max(mr.instances, 1)
-            qubit_results: OrderedDict[cirq.GridQubit, np.ndarray] = OrderedDict()
+            qubit_results: OrderedDict[cirq.Qid, np.ndarray] = OrderedDict()
             for qmr in mr.qubit_measurement_results:
-                qubit = v2.grid_qubit_from_proto_id(qmr.qubit.id)
+                qubit = v2.qubit_from_proto_id(qmr.qubit.id)
                 if qubit in qubit_results:
                     raise ValueError(f'Qubit already exists: {qubit}.')
                 qubit_results[qubit] = unpack_bits(qmr.results, msg.repetitions * instances)
